@@ -129,7 +129,17 @@ def fam_slice(ctx):
     return {"must_report": ["ST.slice|parse_alloc_bad"], "must_not_report": ["ST.slice|parse_alloc_len_ok"]}
 
 
-FAMILIES = {"lock": fam_lock, "gate": fam_gate, "publish": fam_publish, "taint": fam_taint, "panic": fam_panic, "loop": fam_loop, "slice": fam_slice}
+def fam_readloop(ctx):
+    from .lib import zero_read_leaves_loop
+    for i in ("read_loop_eof_ok", "read_loop_total_bad"):
+        b = body(ctx, i)
+        c = b.calls_matching(r"BufRead>?::read_line$")[0]
+        ok = zero_read_leaves_loop(b, c)
+        (ctx.ok if ok else ctx.bad)("ST.readloop", [i], "Ok(0) leaves the loop" if ok else "no exit on this read's own Ok(0)", c.loc())
+    return {"must_report": ["ST.readloop|read_loop_total_bad"], "must_not_report": ["ST.readloop|read_loop_eof_ok"]}
+
+
+FAMILIES = {"readloop": fam_readloop, "lock": fam_lock, "gate": fam_gate, "publish": fam_publish, "taint": fam_taint, "panic": fam_panic, "loop": fam_loop, "slice": fam_slice}
 
 
 def for_families(names):
